@@ -301,9 +301,11 @@ def sweep_expand(cell):
     elif kind == 'no_device':
         world['boards'][0]['plugged'] = False
         ops.append(call(0, 'connect'))
+        ops.append(call(0, 'connect', ['East-Plotter']))      # a second failing search, for another target
         ops.append({'op': 'env', 'what': 'replug', 'port': '/dev/ttyACM0'})
     elif kind == 'unknown_name':
         ops.append(call(0, 'connect', ['NoSuchBoard']))
+        ops.append(call(0, 'connect', ['OtherAbsentBoard']))  # the message of the first search stays
     elif kind == 'never_connected':
         pass
     elif kind in ('app_records_empty', 'app_records_text'):
